@@ -22,7 +22,8 @@ Import ListNotations.
 From DD Require Import Base.PyStr Base.Value Path.PathModel Diff.Tree Diff.DiffModel
   Hash.HashModel DiffIO.DiffIOModel
   Delta.DeltaModel Delta.DeltaRun Delta.DeltaGuard Delta.DeltaGood Delta.DeltaRoundtrip Delta.DeltaChain Delta.DeltaExamples
-  Delta.DeltaIO Delta.DeltaIOProofs.
+  Delta.DeltaIO Delta.DeltaIOProofs
+  Delta.DeltaChainRun Delta.DeltaChainAll Delta.DeltaIOReloc Delta.DeltaIOPre Delta.DeltaIOLocal Delta.DeltaIOPlant Delta.DeltaIOPlantEx.
 
 (* the round trip, for all nested values inside the guards *)
 Theorem C01_roundtrip_partial :
@@ -150,6 +151,61 @@ Theorem C01_chain_veq_refuted_rebuild :
 Proof. exact (conj rb_guards refuted_rebuild). Qed.
 Print Assumptions C01_chain_veq_refuted_rebuild.
 
+(* ---- chains: the hypothesis about the constructor oracle, weakened and made observable ----
+   C01_chain_veq_partial under the weaker hypothesis that its proof uses: [okb] at the RUNNING results only
+   ([chain_okv_run]: at every step, at the value the delta is actually applied to) instead of at every
+   reordering of every left end ([chain_okv]).  [chain_okv_run] is decidable for a computable constructor
+   oracle; its exact boolean is evaluated on every step of every generated chain and compared with a Python
+   mirror (harness/c01chain.py). *)
+Theorem C01_chain_veq_run_partial :
+  forall hatom udiff ops c conv bidir always ro ao,
+    (forall a b, hatom a = hatom b -> a = b) ->
+    (forall ty0 v v', conv ty0 v = Some v' -> type_of v' = ty0) ->
+  forall rest cur t0, chain_ok hatom udiff ops c conv bidir always ro ao t0 rest ->
+    chain_okv_run hatom udiff ops c conv bidir always ro ao cur t0 rest ->
+    wf cur = true -> veqb cur t0 = true ->
+    Forall2 (fun res t => snd res = 0 /\ veqb (fst res) t = true)
+      (chain_from hatom udiff ops c conv bidir always ro ao cur t0 rest) rest.
+Proof. exact chain_veq_run. Qed.
+Print Assumptions C01_chain_veq_run_partial.
+
+(* the hypotheses as booleans: [okbb] is exactly [okb], [chain_okv_runb] (runs the chain on the model) exactly
+   [chain_okv_run]; the old hypothesis [chain_okv] implies the new one wherever the old theorem applied, and has
+   itself a decidable sufficient condition ([chain_okvb]: okb at each of the finitely many reorderings of the left
+   end - every permutation of every dict's items and every set's members, at every depth) *)
+Theorem C01_chain_okv_run_decidable :
+  (forall conv bidir always t1 t2 v, okbb conv bidir always v t1 t2 = true <-> okb conv bidir always v t1 t2) /\
+  (forall hatom udiff ops c conv bidir always ro ao rest cur t0,
+     chain_okv_runb hatom udiff ops c conv bidir always ro ao cur t0 rest = true <->
+     chain_okv_run hatom udiff ops c conv bidir always ro ao cur t0 rest) /\
+  (forall hatom udiff ops c conv bidir always ro ao,
+     (forall a b, hatom a = hatom b -> a = b) ->
+     (forall ty0 v v', conv ty0 v = Some v' -> type_of v' = ty0) ->
+   forall rest cur t0, chain_ok hatom udiff ops c conv bidir always ro ao t0 rest ->
+     chain_okv conv bidir always t0 rest -> wf cur = true -> veqb cur t0 = true ->
+     chain_okv_run hatom udiff ops c conv bidir always ro ao cur t0 rest) /\
+  (forall conv bidir always rest t0, wf t0 = true -> forallb wf rest = true ->
+     chain_okvb conv bidir always t0 rest = true -> chain_okv conv bidir always t0 rest).
+Proof. exact (conj okbb_iff (conj chain_okv_runb_iff (conj chain_okv_implies_run chain_okvb_sound))). Qed.
+Print Assumptions C01_chain_okv_run_decidable.
+
+(* strictly weaker: {'k':{'a':1,'b':2},'z':{'p':1,'q':2}} -> (edit below 'z') -> {'k':['a','b'],...} started from
+   {'z':{'q':2,'p':1},'k':{'a':1,'b':2}} (a reordered copy that leaves the dict under 'k' alone): [chain_okv_run] holds and
+   the theorem applies, [chain_okv] fails (at the reordering {'k':{'b':2,'a':1},...} of t1); and the witness of
+   C01_chain_veq_refuted_rebuild started from its own t1 *)
+Example C01_chain_okv_run_strict :
+  (chain_ok hatom_ex (fun _ _ => []) no_ops ex_cfg keys_conv false false (@rev _) (fun l => l) rc_t0 [rc_t1; rc_t2] /\
+   (wf rc_start = true /\ veqb rc_start rc_t0 = true /\ value_eqb rc_start rc_t0 = false) /\
+   chain_okv_run hatom_ex (fun _ _ => []) no_ops ex_cfg keys_conv false false (@rev _) (fun l => l) rc_start rc_t0 [rc_t1; rc_t2] /\
+   ~ chain_okv keys_conv false false rc_t0 [rc_t1; rc_t2] /\
+   Forall2 (fun res t => snd res = 0 /\ veqb (fst res) t = true)
+     (chain_from hatom_ex (fun _ _ => []) no_ops ex_cfg keys_conv false false (@rev _) (fun l => l) rc_start rc_t0 [rc_t1; rc_t2])
+     [rc_t1; rc_t2]) /\
+  (chain_okv_run hatom_ex (fun _ _ => []) no_ops ex_cfg keys_conv false false (@rev _) (fun l => l) rb_t1 rb_t1 [rb_t2] /\
+   ~ chain_okv keys_conv false false rb_t1 [rb_t2]).
+Proof. exact (conj chain_okv_run_strict (conj rb_okv_run rb_not_okv)). Qed.
+Print Assumptions C01_chain_okv_run_strict.
+
 (* the guards are decidable-sufficient and satisfiable by a non-trivial pair:
    nested dict / lists / tuple / set with a recorded difflib alignment, a single
    insertion, a positional list with trailing removals, added and removed keys, set items,
@@ -237,6 +293,137 @@ Theorem C01_ignore_order_perm_refuted_alias :
     (VList [VAtom (AInt 1)]) = (VList [VAtom (ABool true)], 0).
 Proof. exact io_refuted_alias. Qed.
 Print Assumptions C01_ignore_order_perm_refuted_alias.
+
+(* ... at ANY path through dict levels.  [planted a b q u1 u2]: u1 and u2 are the same context of list / dict levels
+   around a resp. b, the hole at path q; [dict_level c]: a dict key not hidden by ignore_private_variables.  The pairing
+   oracle is asked at the path of the list.  The result is t1's context around a list whose items are a permutation of
+   t2's list: nothing else of t1 is touched, no error is logged. *)
+Theorem C01_ignore_order_perm_at_path_partial :
+  forall H udiff c pairs conv bidir always ro ao (X Y : list atom),
+    (forall a b, In a (X ++ Y) -> In b (X ++ Y) -> hatom_io H c true a = hatom_io H c true b -> a = b) ->
+    NoDup X -> NoDup Y -> alias_free (X ++ Y) ->
+    (forall ty0 v v', conv ty0 v = Some v' -> type_of v' = ty0) ->
+    ro [] = [] -> thr_num c <= thr_den c ->
+  forall q t1 t2,
+    planted (VList (map VAtom X)) (VList (map VAtom Y)) q t1 t2 -> Forall (dict_level c) q -> wf t1 = true -> wf t2 = true ->
+    let r := run_diff_io H udiff nos nos c true pairs t1 t2 in
+    exists u' zs, apply_io H conv ro ao (to_delta_io conv bidir always t1 t2 (fst r) (snd r)) t1 = (u', 0)
+                  /\ planted (VList (map VAtom X)) (VList zs) q t1 u' /\ Permutation zs (map VAtom Y).
+Proof. exact io_roundtrip_planted. Qed.
+Print Assumptions C01_ignore_order_perm_at_path_partial.
+
+(* corollaries and the machinery behind it, each part for more than the theorem needs.  Read through the path: t1, t2
+   and the result hold at q the list X, the list Y, a permutation of Y.  Locality: ANY ignore-order payload of the hole
+   (no dict items added / removed), prefixed with q, acts on the hole only - through list AND dict levels (the diff
+   side - relocation [Delta/DeltaIOReloc.v], dict levels [dio_planted] - is what restricts the theorem to dict levels) *)
+Theorem C01_ignore_order_at_path_corollaries :
+  (forall H udiff c pairs conv bidir always ro ao (X Y : list atom),
+    (forall a b, In a (X ++ Y) -> In b (X ++ Y) -> hatom_io H c true a = hatom_io H c true b -> a = b) ->
+    NoDup X -> NoDup Y -> alias_free (X ++ Y) ->
+    (forall ty0 v v', conv ty0 v = Some v' -> type_of v' = ty0) ->
+    ro [] = [] -> thr_num c <= thr_den c ->
+   forall q t1 t2,
+    planted (VList (map VAtom X)) (VList (map VAtom Y)) q t1 t2 -> Forall (dict_level c) q -> wf t1 = true -> wf t2 = true ->
+    let r := run_diff_io H udiff nos nos c true pairs t1 t2 in
+    exists u' zs, apply_io H conv ro ao (to_delta_io conv bidir always t1 t2 (fst r) (snd r)) t1 = (u', 0)
+                  /\ resolve t1 q = Some (VList (map VAtom X)) /\ resolve t2 q = Some (VList (map VAtom Y))
+                  /\ resolve u' q = Some (VList zs) /\ Permutation zs (map VAtom Y)) /\
+  (forall H conv ro ao, ro [] = [] ->
+   forall a b q u1 u2, planted a b q u1 u2 -> wf u1 = true ->
+   forall d r, d_dadd (io_base d) = [] -> d_drem (io_base d) = [] ->
+    apply_io H conv ro ao d a = (r, 0) ->
+    exists u', apply_io H conv ro ao (diopre (npath q) d) u1 = (u', 0) /\ planted a r q u1 u').
+Proof. exact (conj io_roundtrip_at_path apply_io_planted). Qed.
+Print Assumptions C01_ignore_order_at_path_corollaries.
+
+(* satisfiable: {'z': 0, 'k': {'m': [1,2,3,4], 'z': None}} -> the same around [2,'a',None,7,9] with the implementation's
+   pairing asked at root['k']['m']; the model computes the context around [2,'a',None,9,7] (so does the implementation) *)
+Example C01_ignore_order_at_path_guards_satisfiable :
+  (exists u' zs, pl_result = (u', 0) /\ planted (VList (xs io_X)) (VList zs) pl_q pl_t1 u' /\ Permutation zs (ys io_Y)) /\
+  pl_result = (pl_ctx (VList (map VAtom [AInt 2; AStr [97%N]; ANone; AInt 9; AInt 7])), 0).
+Proof. exact pl_example. Qed.
+Print Assumptions C01_ignore_order_at_path_guards_satisfiable.
+
+(* [dict_level] is needed: below a key hidden by ignore_private_variables ({'__p': [1,2,3,4]}) the diff is empty and
+   the list stays as it was (documented behaviour of DeepDiff, same on the implementation) *)
+Theorem C01_ignore_order_perm_refuted_hidden_key :
+  let t1 := VDict [(kP, VList (xs io_X))] in
+  let t2 := VDict [(kP, VList (ys io_Y))] in
+  let r := run_diff_io hexhash (fun _ _ => []) nos nos io_cfg true (fun _ => []) t1 t2 in
+  planted (VList (xs io_X)) (VList (ys io_Y)) [PKey kP] t1 t2 /\ ~ dict_level io_cfg (PKey kP) /\
+  apply_io hexhash conv_none_io (fun l => l) (fun l => l) (to_delta_io conv_none_io false false t1 t2 (fst r) (snd r)) t1 = (t1, 0).
+Proof. exact io_refuted_hidden_key. Qed.
+Print Assumptions C01_ignore_order_perm_refuted_hidden_key.
+
+(* BEYOND the property's text ("lists of distinct scalars"): extension witnesses, not findings; both reproduce on the
+   implementation (extension stream IgnoreOrderBeyondText of c01.py compares the model with it on such inputs).
+   Repetitions: [3, 3] -> [1], the 3 paired with the 1, rebuilds [1, 1].  Nested ignore-order lists:
+   [[], [8]] -> [[], [39, 24], [8, 16]], [8] paired with [8, 16]: the 16 is added at its t1 path root[1], where the
+   rebuilt outer list now holds [39, 24]: [[], [39, 16, 24], [8]] *)
+Theorem C01_ignore_order_beyond_text_refuted :
+  (let t1 := VList [VAtom (AInt 3); VAtom (AInt 3)] in
+   let t2 := VList [VAtom (AInt 1)] in
+   let r := run_diff_io hexhash (fun _ _ => []) nos nos io_cfg true (fun p => match p with [] => [(0, 0)] | _ => [] end) t1 t2 in
+   apply_io hexhash conv_none_io (fun l => l) (fun l => l) (to_delta_io conv_none_io false false t1 t2 (fst r) (snd r)) t1
+   = (VList [VAtom (AInt 1); VAtom (AInt 1)], 0)) /\
+  (let i z := VAtom (AInt z) in
+   let t1 := VList [VList []; VList [i 8%Z]] in
+   let t2 := VList [VList []; VList [i 39%Z; i 24%Z]; VList [i 8%Z; i 16%Z]] in
+   let r := run_diff_io hexhash (fun _ _ => []) nos nos io_cfg true (fun p => match p with [] => [(2, 1)] | _ => [] end) t1 t2 in
+   apply_io hexhash conv_none_io (fun l => l) (fun l => l) (to_delta_io conv_none_io false false t1 t2 (fst r) (snd r)) t1
+   = (VList [VList []; VList [i 39%Z; i 16%Z; i 24%Z]; VList [i 8%Z]], 0)).
+Proof. exact (conj io_refuted_repetition io_refuted_nested). Qed.
+Print Assumptions C01_ignore_order_beyond_text_refuted.
+
+(* ---- numpy arrays "edited in place" ----
+   Models: Diff/NpModel.v (the diff of numeric arrays: dtype, shape, row-major data), Delta/DeltaNp.v (the
+   values_changed payload with _numpy_paths, _do_values_changed writing through the index path; casts, out-of-range
+   indexes and too short / too long paths modelled, the rest excluded by the domain predicate np_dom).  For all
+   well-formed numeric arrays of one shape and dtype (ANY number of dimensions >= 1), directed or bidirectional
+   delta:  Delta(DeepDiff(a, b)) + a  is b as an array (dtype, shape, every element), nothing logged. *)
+From DD Require Diff.NpModel Delta.DeltaNp Delta.DeltaNpProofs.
+Section Numpy.
+Import Diff.NpModel Delta.DeltaNp Delta.DeltaNpProofs.
+
+Theorem C01_numpy_roundtrip :
+  forall (ops : path -> list value -> list value -> list opcode) (zip bidir : bool) (a b : narr),
+    nwf a = true -> nwf b = true -> dtype a = dtype b -> shape a = shape b ->
+    apply_np bidir (np_delta ops zip bidir a b) a = (b, 0).
+Proof. exact DeltaNpProofs.np_roundtrip. Qed.
+Print Assumptions C01_numpy_roundtrip.
+
+(* around it: the diff of such a pair is a values_changed-only payload with _numpy_paths = b's dtype; on ANY base c of
+   that shape and dtype the result is c with the positions where a and b differ overwritten by b's elements (a
+   bidirectional delta logs one error per overwritten position where c <> a); ANY payload (hand-written paths,
+   out-of-range indexes, casts) keeps dtype, shape and well-formedness; [shape a = shape b] cannot be dropped
+   (zeros((0,3)) vs zeros((0,2)): empty representable delta, same on the implementation); satisfiable by a 2-d pair *)
+Theorem C01_numpy_facts :
+  (forall (ops : path -> list value -> list value -> list opcode) (zip : bool) (a b : narr),
+    nwf a = true -> nwf b = true -> dtype a = dtype b -> shape a = shape b ->
+    np_in_model (np_run_diff ops zip a b) = true /\
+    (forall bidir : bool, nd_numpy (np_delta ops zip bidir a b) = Some (dtype b))) /\
+  (forall (ops : path -> list value -> list value -> list opcode) (zip bidir : bool) (a b c : narr),
+    nwf a = true -> nwf b = true -> nwf c = true ->
+    dtype a = dtype b -> shape a = shape b -> dtype c = dtype a -> shape c = shape a ->
+    apply_np bidir (np_delta ops zip bidir a b) c
+    = (mkArr (dtype c) (shape c) (merge3 (data a) (data b) (data c)),
+       if bidir then stale (data a) (data b) (data c) else 0)) /\
+  (forall (bidir : bool) (p : npdelta) (a : narr), nwf a = true ->
+    nwf (fst (apply_np bidir p a)) = true /\
+    dtype (fst (apply_np bidir p a)) = dtype a /\ shape (fst (apply_np bidir p a)) = shape a) /\
+  (nwf rt_z03 = true /\ nwf rt_z02 = true /\ dtype rt_z03 = dtype rt_z02 /\
+   np_in_model (np_run_diff np_no_ops false rt_z03 rt_z02) = true /\
+   apply_np false (np_delta np_no_ops false false rt_z03 rt_z02) rt_z03 = (rt_z03, 0) /\ rt_z03 <> rt_z02) /\
+  (nwf rt_a = true /\ nwf rt_b = true /\ dtype rt_a = dtype rt_b /\ shape rt_a = shape rt_b /\ rt_a <> rt_b /\
+   np_delta np_no_ops false true rt_a rt_b
+     = mkND [mkNC [0; 1] (AInt 9) (Some (AInt 2)); mkNC [1; 2] (AInt 7) (Some (AInt 6))] (Some DInt64) /\
+   apply_np true (np_delta np_no_ops false true rt_a rt_b) rt_a = (rt_b, 0)).
+Proof.
+  exact (conj DeltaNpProofs.np_delta_in_model (conj DeltaNpProofs.np_patch (conj DeltaNpProofs.apply_np_nwf
+        (conj DeltaNpProofs.np_roundtrip_other_shape_refuted DeltaNpProofs.np_roundtrip_satisfiable)))).
+Qed.
+Print Assumptions C01_numpy_facts.
+End Numpy.
 
 (* ------------------------------------------------------------------ *)
 (** EXTENSION beyond the property's stated domain: values holding INSTANCES OF CLASSES
